@@ -164,13 +164,13 @@ Fixpoint compat (fuel : nat) (rds : rdefs) (tds : tdefs) (r : rty) (t : tty) {st
         | (name, ft, sk) :: fs' =>
             match tfield tfs name with
             | None => true                                   (* excess property *)
-            | Some (optional, tt) =>
+            | Some (optional, fty) =>
                 match sk with
-                | SkNever => compat fuel' rds tds ft tt
+                | SkNever => compat fuel' rds tds ft fty
                 | SkOptNone =>
                     (* when present the value is Some: the field type is compared without the Option *)
-                    optional && match ft with ROpt ft' => compat fuel' rds tds ft' tt | _ => false end
-                | SkStrEmpty | SkPathEmpty | SkVecEmpty => optional && compat fuel' rds tds ft tt
+                    optional && match ft with ROpt ft' => compat fuel' rds tds ft' fty | _ => false end
+                | SkStrEmpty | SkPathEmpty | SkVecEmpty => optional && compat fuel' rds tds ft fty
                 | SkOther => false
                 end
             end && each_rfield fs' tfs
